@@ -233,12 +233,12 @@ Print Assumptions C08_driver_independent.
 (* a Vec of length 2, capacity 6, read through .slice(1..) : the OS is offered
    [1, 6), answers 3 bytes; they land at [1, 4), the length becomes 4 *)
 Example C08_glue_read_witness :
-  let r := mkroot KVec [10; 11; 12; 13; 14; 15]%N 2 in
+  let r := mkroot KVec [10; 11; 12; 13; 14; 15]%N 2 0 in
   let v := VSlice VBase 1 None in
   rwf r /\ wf v r /\ ~ uninit_filled v r /\
   offer_read v r = Ok (1, 5) /\
   glue_read v r (fun _ => [7; 8; 9]%N) =
-    Ok (3, mkroot KVec [10; 7; 8; 9; 14; 15]%N 4).
+    Ok (3, mkroot KVec [10; 7; 8; 9; 14; 15]%N 4 0).
 Proof.
   cbn zeta. split; [split; [cbn; lia|discriminate]|].
   split; [cbn; split; [exact I|]; split; [exists 2; split; [reflexivity|lia]|exact I]|].
@@ -248,17 +248,17 @@ Print Assumptions C08_glue_read_witness.
 
 (* a short read at end of file into a non-empty Vec keeps the old length *)
 Example C08_glue_read_file_witness :
-  glue_read VBase (mkroot KVec [1; 2; 3; 4; 5]%N 4) (fun k => pread [60; 61; 62]%N 2 k) =
-    Ok (1, mkroot KVec [62; 2; 3; 4; 5]%N 4).
+  glue_read VBase (mkroot KVec [1; 2; 3; 4; 5]%N 4 0) (fun k => pread [60; 61; 62]%N 2 k) =
+    Ok (1, mkroot KVec [62; 2; 3; 4; 5]%N 4 0).
 Proof. reflexivity. Qed.
 Print Assumptions C08_glue_read_file_witness.
 
 (* vectored: 5 bytes over members of capacity 2, 0, 4 *)
 Example C08_vectored_witness :
-  let ms := [mkroot KVec [1; 1]%N 0; mkroot KVec [] 0; mkroot KVec [2; 2; 2; 2]%N 0] in
+  let ms := [mkroot KVec [1; 1]%N 0 0; mkroot KVec [] 0 0; mkroot KVec [2; 2; 2; 2]%N 0 0] in
   Forall rwf ms /\ ~ vec_known ms /\
   glue_readv ms (fun caps => concat (preadv [50; 51; 52; 53; 54]%N 0 caps)) =
-    Ok (5, [mkroot KVec [50; 51]%N 2; mkroot KVec [] 0; mkroot KVec [52; 53; 54; 2]%N 3]).
+    Ok (5, [mkroot KVec [50; 51]%N 2 0; mkroot KVec [] 0 0; mkroot KVec [52; 53; 54; 2]%N 3 0]).
 Proof.
   cbn zeta. split.
   { repeat constructor; cbn; try lia; discriminate. }
